@@ -55,6 +55,137 @@ WEAK = [
 ]
 
 
+# Holder kinds: one program per engine structure that can be the ONLY thing keeping a payload object alive (closure environments of every
+# sort, bound functions, suspended generator / async frames with the payload in a local, in a temporary register, as `this`, as a pending
+# return value or a pending exception, live iterators of every builtin collection, iterator helpers, promise states and combinators,
+# proxies, error causes, accessor closures, prototype links, private / static class elements, buffers behind views, sparse arrays, weak-map
+# values with a held key, home objects).  The payload is created in a function whose frame dies, observed through a WeakRef in a LATER job
+# (so that KeepDuringJob no longer pins it) and then fetched back through the holder.  Masked `W:p:<alive|dead>:held` line: `dead` is a
+# violation (the program can still reach the object); the fetched payload must print 7 under every schedule.
+KINDS = [
+    # name, payload literal, holder constructor (an expression over P), statements that fetch the payload back from H and print it
+    ("closure", None, "() => P", "print(H().n)"),
+    ("closure-2-levels", None, "(q => () => () => q)(P)", "print(H()().n)"),
+    ("closure-eval", None, 'eval("(() => P)")', "print(H().n)"),
+    ("closure-with", None, "(function () { with (P) { return () => n } })()", "print(H())"),
+    ("closure-catch-param", None, "(function () { try { throw P } catch (e) { return () => e } })()", "print(H().n)"),
+    ("closure-per-iteration-let", None, "(function () { var fs = []; for (let q = P, i = 0; i < 2; i++) fs.push(() => q); return fs[1] })()", "print(H().n)"),
+    ("closure-param-scope", None, "(function (a = P, g = () => a) { var a; return g })()", "print(H().n)"),
+    ("closure-class-field-init", None, "(q => class { f = q })(P)", "print(new H().f.n)"),
+    ("bound-this", None, "(function () { return this }).bind(P)", "print(H().n)"),
+    ("bound-arg", None, "(function (a) { return a }).bind(null, P)", "print(H().n)"),
+    ("bound-of-bound", None, "(function (a, b) { return b }).bind(null, 1).bind(null, P)", "print(H().n)"),
+    ("home-object", None, "({m() { return super.n }, __proto__: P}).m", "print(H.call({}))"),
+    ("gen-local", None, "(g => (g.next(), g))((function* () { var q = P; yield 1; yield q })())", "print(H.next().value.n)"),
+    ("gen-not-started-arg", None, "(function* (a) { yield a })(P)", "print(H.next().value.n)"),
+    ("gen-temp-register", None, "(g => (g.next(), g))((function* () { yield [P, yield 1][0] })())", "print(H.next().value.n)"),
+    ("gen-call-args-pending", None, "(g => (g.next(), g))((function* () { yield ((a, b) => a)(P, yield 1) })())", "print(H.next().value.n)"),
+    ("gen-this", "{n: 7, *g() { yield 1; yield this }}", "(g => (g.next(), g))(P.g())", "print(H.next().value.n)"),
+    ("gen-pending-return", None, "(g => (g.next(), g))((function* () { try { return P } finally { yield 1 } })())", "print(H.next().value.n)"),
+    ("gen-pending-throw", None, "(g => (g.next(), g))((function* () { try { try { throw P } finally { yield 1 } } catch (e) { yield e } })())", "print(H.next().value.n)"),
+    ("gen-delegate", None, "(g => (g.next(), g))((function* () { yield* (function* () { var q = P; yield 1; yield q })() })())", "print(H.next().value.n)"),
+    ("gen-in-for-of", None, "(g => (g.next(), g))((function* () { for (var x of [P, 2]) { yield 1; yield x; break } })())", "print(H.next().value.n)"),
+    ("gen-in-for-in", None, "(g => (g.next(), g))((function* () { for (var k in P) yield k; yield P })())", "print(H.next().value.n)"),
+    ("gen-spread-pending", None, "(g => (g.next(), g))((function* () { yield [...[P], yield 1][0] })())", "print(H.next().value.n)"),
+    ("gen-destructuring-pending", None, "(g => (g.next(), g))((function* () { var [a, b = yield 1] = [P]; yield a })())", "print(H.next().value.n)"),
+    ("gen-object-literal-pending", None, "(g => (g.next(), g))((function* () { yield ({a: P, b: yield 1}).a })())", "print(H.next().value.n)"),
+    ("gen-template-pending", None, "(g => (g.next(), g))((function* () { yield ((s, a) => a)`x${P}y${yield 1}` })())", "print(H.next().value.n)"),
+    ("gen-new-pending", None, "(g => (g.next(), g))((function* () { yield new (function (a) { this.a = a })(P, yield 1).a })())", "print(H.next().value.n)"),
+    ("gen-super-call-pending", None, "(g => (g.next(), g))((function* () { class A { constructor(a) { this.a = a } } yield new (class extends A {})(P, yield 1).a; })())", "print(H.next().value.n)"),
+    ("async-local", None, "(function () { var res; var pr = (async function () { var q = P; await new Promise(r => res = r); return q })(); pr.res = res; return pr })()", "H.res(); H.then(v => print(v.n))"),
+    ("async-temp-register", None, "(function () { var res; var pr = (async function () { return [P, await new Promise(r => res = r)][0] })(); pr.res = res; return pr })()", "H.res(); H.then(v => print(v.n))"),
+    ("async-arrow-this", "{n: 7, f() { var res; var pr = (async () => { await new Promise(r => res = r); return this })(); pr.res = res; return pr }}", "P.f()", "H.res(); H.then(v => print(v.n))"),
+    ("asyncgen-local", None, "(g => (g.next(), g))((async function* () { var q = P; yield 1; yield q })())", "H.next().then(r => print(r.value.n))"),
+    ("asyncgen-queued-request", None, "(async function* (a) { yield a })(P)", "H.next().then(r => print(r.value.n))"),
+    ("for-await-sync-iterator", None, "(function () { var res; var pr = (async function () { for await (var x of [P]) { await new Promise(r => res = r); return x } })(); return {pr, go() { res() }} })()", "Promise.resolve().then(() => 0).then(() => { H.go(); H.pr.then(v => print(v.n)) })"),
+    ("map-key", None, "new Map([[P, 1]])", "print([...H.keys()][0].n)"),
+    ("map-value", None, "new Map([[1, P]])", "print(H.get(1).n)"),
+    ("map-deleted-then-readded", None, "(m => (m.set(1, 0), m.delete(1), m.set(2, P), m))(new Map())", "print(H.get(2).n)"),
+    ("set-member", None, "new Set([P])", "print([...H][0].n)"),
+    ("map-iterator", None, "new Map([[1, P]]).values()", "print(H.next().value.n)"),
+    ("map-entries-iterator-started", None, "(it => (it.next(), it))(new Map([[0, 0], [1, P]]).entries())", "print(H.next().value[1].n)"),
+    ("set-iterator", None, "new Set([P]).values()", "print(H.next().value.n)"),
+    ("array-iterator", None, "[P][Symbol.iterator]()", "print(H.next().value.n)"),
+    ("array-entries-iterator", None, "[0, P].entries()", "H.next(); print(H.next().value[1].n)"),
+    ("arraylike-iterator", None, "Array.prototype.values.call({length: 1, 0: P})", "print(H.next().value.n)"),
+    ("typedarray-iterator-buffer-tag", None, "(b => (b.tag = P, new Uint8Array(b).values()))(new ArrayBuffer(2))", "H.next(); print('it')"),
+    ("iterator-helper-map", None, "[P].values().map(x => x)", "print(H.next().value.n)"),
+    ("iterator-helper-filter", None, "[P].values().filter(x => true)", "print(H.next().value.n)"),
+    ("iterator-helper-take", None, "[P].values().take(1)", "print(H.next().value.n)"),
+    ("iterator-helper-drop", None, "[0, P].values().drop(1)", "print(H.next().value.n)"),
+    ("iterator-helper-flatmap", None, "[0].values().flatMap(x => [P])", "print(H.next().value.n)"),
+    ("iterator-helper-flatmap-inner-live", None, "(it => (it.next(), it))([0].values().flatMap(x => [1, P]))", "print(H.next().value.n)"),
+    ("iterator-from-object", None, "Iterator.from({next() { return {value: P, done: false} }})", "print(H.next().value.n)"),
+    ("iterator-helper-mapper-closure", None, "[1].values().map(x => P)", "print(H.next().value.n)"),
+    ("arguments-mapped", None, "(function (a) { return arguments })(P)", "print(H[0].n)"),
+    ("arguments-unmapped", None, '(function (a) { "use strict"; return arguments })(P)', "print(H[0].n)"),
+    ("arguments-mapped-via-param-env", None, "(function (a) { var args = arguments; return () => args[0] })(P)", "print(H().n)"),
+    ("arguments-mapped-reassigned", None, "(function (a) { a = P; return arguments })(0)", "print(H[0].n)"),
+    ("promise-fulfilled", None, "Promise.resolve(P)", "H.then(v => print(v.n))"),
+    ("promise-rejected", None, "(pr => (pr.catch(() => 0), pr))(Promise.reject(P))", "H.catch(v => print(v.n))"),
+    ("promise-reaction-closure", None, "new Promise(r => setTimeoutish = r).then(() => P)", "setTimeoutish(); H.then(v => print(v.n))"),
+    ("promise-thenable-job", None, "Promise.resolve({then(r) { r(P) }})", "H.then(v => print(v.n))"),
+    ("promise-all", None, "Promise.all([Promise.resolve(P), 1])", "H.then(v => print(v[0].n))"),
+    ("promise-all-pending-element", None, "(function () { var res; var pr = Promise.all([P, new Promise(r => res = r)]); pr.res = res; return pr })()", "H.res(); H.then(v => print(v[0].n))"),
+    ("promise-allsettled", None, "Promise.allSettled([Promise.reject(P)])", "H.then(v => print(v[0].reason.n))"),
+    ("promise-any-errors", None, "(pr => (pr.catch(() => 0), pr))(Promise.any([Promise.reject(P)]))", "H.catch(e => print(e.errors[0].n))"),
+    ("promise-race", None, "Promise.race([new Promise(() => 0), Promise.resolve(P)])", "H.then(v => print(v.n))"),
+    ("promise-finally-passthrough", None, "Promise.resolve(P).finally(() => 0)", "H.then(v => print(v.n))"),
+    ("promise-withresolvers", None, "(w => (w.resolve(P), w))(Promise.withResolvers())", "H.promise.then(v => print(v.n))"),
+    ("proxy-target", None, "new Proxy(P, {})", "print(H.n)"),
+    ("proxy-handler", "{n: 7, get(t, k) { return k === 'self' ? this : undefined }}", "new Proxy({}, P)", "print(H.self.n)"),
+    ("proxy-revocable", None, "Proxy.revocable(P, {})", "print(H.proxy.n)"),
+    ("proxy-as-prototype", None, "Object.create(new Proxy(P, {}))", "print(H.n)"),
+    ("error-cause", None, 'new Error("m", {cause: P})', "print(H.cause.n)"),
+    ("aggregate-error", None, "new AggregateError([P])", "print(H.errors[0].n)"),
+    ("thrown-and-caught-error-prop", None, "(function () { try { null.x } catch (e) { e.p = P; return e } })()", "print(H.p.n)"),
+    ("accessor-getter-closure", None, 'Object.defineProperty({}, "g", {get: function () { return P }})', "print(H.g.n)"),
+    ("accessor-setter-closure", None, 'Object.defineProperty({}, "g", {set: function (v) { this.out = P }})', "H.g = 1; print(H.out.n)"),
+    ("prototype-link", None, "Object.create(P)", "print(Object.getPrototypeOf(H).n)"),
+    ("prototype-of-prototype", None, "Object.create(Object.create(P))", "print(H.n)"),
+    ("symbol-keyed", None, '({[Symbol.for("k")]: P})', 'print(H[Symbol.for("k")].n)'),
+    ("private-symbol-keyed", None, "(s => ({s, [s]: P}))(Symbol())", "print(H[H.s].n)"),
+    ("private-field", None, "new (class { #p = P; get p() { return this.#p } })()", "print(H.p.n)"),
+    ("private-method-closure", None, "new (class { #m() { return P } get p() { return this.#m() } })()", "print(H.p.n)"),
+    ("private-static", None, "class { static #s = P; static get s() { return this.#s } }", "print(H.s.n)"),
+    ("static-field", None, "class { static s = P }", "print(H.s.n)"),
+    ("class-heritage-prototype", None, "(function () { function B() {} B.prototype = P; return class extends B {} })()", "print(Object.getPrototypeOf(H.prototype).n)"),
+    ("class-computed-key-closure", None, "(k => class { [k.n]() { return k } })(P)", "print(new H()[7]().n)"),
+    ("buffer-behind-typedarray", None, "(b => (b.tag = P, new Uint8Array(b)))(new ArrayBuffer(8))", "print(H.buffer.tag.n)"),
+    ("buffer-behind-dataview", None, "(b => (b.tag = P, new DataView(b)))(new ArrayBuffer(8))", "print(H.buffer.tag.n)"),
+    ("buffer-behind-subarray", None, "(b => (b.tag = P, new Uint16Array(b).subarray(1)))(new ArrayBuffer(8))", "print(H.buffer.tag.n)"),
+    ("sparse-array-element", None, "(a => (a[100000] = P, a))([])", "print(H[100000].n)"),
+    ("dense-array-element", None, "[1, 2.5, P]", "print(H[2].n)"),
+    ("array-after-shift", None, "(a => (a.shift(), a))([0, P])", "print(H[0].n)"),
+    ("dictionary-object", None, "(o => { for (var i = 0; i < 40; i++) o['k' + i] = i; o.p = P; delete o.k3; return o })({})", "print(H.p.n)"),
+    ("integer-keyed-object", None, "({5: P})", "print(H[5].n)"),
+    ("weakmap-value-held-key", None, "(m => (m.set(K, P), m))(new WeakMap())", "print(H.get(K).n)"),
+    ("weakmap-value-chain", None, "(m => { var mid = {}; m.set(K, mid); m.set(mid, P); return m })(new WeakMap())", "print(H.get(H.get(K)).n)"),
+    ("weakref-target-of-held", None, "(o => ({o, w: new WeakRef(o)}))(P)", "print(H.w.deref().n)"),
+    ("regexp-expando-lastindex-object", None, "(r => (r.tag = P, r))(/a/g)", "print(H.tag.n)"),
+    ("date-expando", None, "(d => (d.tag = P, d))(new Date(0))", "print(H.tag.n)"),
+    ("function-property", None, "(f => (f.tag = P, f))(function () {})", "print(H.tag.n)"),
+    ("function-prototype-object", None, "(f => (f.prototype = P, f))(function () {})", "print(new H().n)"),
+    ("global-via-new-function", None, '(globalThis.GP = P, new Function("return GP"))', "print(H().n)"),
+    ("json-parse-reviver-holder", None, 'JSON.parse("[1]", function (k, v) { return k === "" ? this : P })', "print(H[''][0].n)"),
+    ("object-spread-copy", None, "({...{a: P}})", "print(H.a.n)"),
+    ("structured-array-of-arrays", None, "[[[[P]]]]", "print(H[0][0][0][0].n)"),
+    ("getter-on-class-prototype-closure", None, "(q => new (class { get g() { return q } })())(P)", "print(H.g.n)"),
+    ("label-captured-in-switch-scope", None, "(function (q) { switch (1) { case 1: let z = q; return () => z } })(P)", "print(H().n)"),
+    ("async-closure-after-await", None, "(function () { var out = {}; (async function () { var q = P; await null; out.f = () => q })(); return out })()", "print(H.f().n)"),
+]
+
+
+def kinds_programs():
+    out = []
+    for name, payload, ctor, fetch in KINDS:
+        out.append('var H, wr, K = {k: 1}, setTimeoutish;\n(function () { var P = %s; wr = new WeakRef(P); H = %s; })();\n'
+                   'Promise.resolve().then(() => 0).then(() => 0).then(() => { var junk = []; for (var i = 0; i < 10; i++) junk.push({i}, [i]);\n'
+                   'print("W:%s:" + (wr.deref() === undefined ? "dead" : "alive") + ":held");\n%s; });'
+                   % (payload or "{n: 7}", ctor, name, fetch))
+    return out
+
+
 def weakgraph_programs():
     """Ephemeron topologies: three WeakMap entries E_i = M_i.set(K_i, V_i); V_0 / V_1 may hold the next key and/or the next map, so that a map
     or a key is reachable only through the value of another entry; every subset of {M1, M2, K1, K2} additionally held by a global; every
@@ -100,7 +231,7 @@ def programs(tier):
     fam += F.class_family("quick")[:: (300 if tier == "quick" else 60)]
     fam += F.destr_family("quick")[:: (300 if tier == "quick" else 60)]
     fam += F.ctl_family(3, ("gen", "async"))[:: (250 if tier == "quick" else 50)]
-    return [("strong", p) for p in STRONG + fam] + [("weak", p) for p in WEAK] + [("graph", p) for p in weakgraph_programs()]
+    return [("strong", p) for p in STRONG + fam] + [("weak", p) for p in WEAK + kinds_programs()] + [("graph", p) for p in weakgraph_programs()]
 
 
 def mask(trace):
